@@ -177,7 +177,7 @@ theorem owner_of_not_blocked {s : State} {t i B A : Nat} {rows : List Nat} (hh :
   · rw [hh] at h; injection h with h; exact h.symm
 
 theorem txUpdate_heldAt {s : State} {t i B : Nat} (hh : holder s t i = some B) (A t' : Nat) (c : Cond)
-    (u : List (Nat × Int)) : HeldAt (txUpdate s A t' c u).1.locks s.now s.lockTimeout t i B := by
+    (u : List (Nat × Val)) : HeldAt (txUpdate s A t' c u).1.locks s.now s.lockTimeout t i B := by
   have h0 := heldAt_of_holder hh
   unfold txUpdate
   split
@@ -220,7 +220,7 @@ theorem txDelete_heldAt {s : State} {t i B : Nat} (hh : holder s t i = some B) (
           subst ht
           exact owner_of_not_blocked hh (by simpa using hb) hi
 
-theorem txInsert_heldAt {s : State} {t i B : Nat} (hh : holder s t i = some B) (A t' : Nat) (v : List Int) :
+theorem txInsert_heldAt {s : State} {t i B : Nat} (hh : holder s t i = some B) (A t' : Nat) (v : List Val) :
     HeldAt (txInsert s A t' v).1.locks s.now s.lockTimeout t i B := by
   have h0 := heldAt_of_holder hh
   unfold txInsert
@@ -281,7 +281,7 @@ theorem step_heldAt {s : State} {t i B : Nat} (hh : holder s t i = some B) (hB :
     split
     · exact h0
     · exact finishAuto_heldAt (txDelete_heldAt hhb _ t' c) hneI
-  | createTable n => exact h0
+  | createTable n nl => exact h0
   | createIndex t' c =>
     simp only [step]; unfold createIndex
     repeat' split
@@ -329,7 +329,7 @@ theorem clk_finishAuto (p : State × Res) (I : Nat) : Clk p.1 (finishAuto p I).1
 
 theorem clk_begin (s : State) : Clk s (begin s).1 := ⟨rfl, rfl, Nat.le_succ _⟩
 
-theorem clk_txInsert (s : State) (A t : Nat) (v : List Int) : Clk s (txInsert s A t v).1 := by
+theorem clk_txInsert (s : State) (A t : Nat) (v : List Val) : Clk s (txInsert s A t v).1 := by
   unfold txInsert
   repeat' split
   all_goals first
@@ -338,7 +338,7 @@ theorem clk_txInsert (s : State) (A t : Nat) (v : List Int) : Clk s (txInsert s 
              by simp only [recordUndo_lockTimeout, setTable_lockTimeout]; split <;> rfl,
              by simp only [recordUndo_nextTx, setTable_nextTx]; split <;> exact Nat.le_refl _⟩
 
-theorem clk_txUpdate (s : State) (A t : Nat) (c : Cond) (u : List (Nat × Int)) : Clk s (txUpdate s A t c u).1 := by
+theorem clk_txUpdate (s : State) (A t : Nat) (c : Cond) (u : List (Nat × Val)) : Clk s (txUpdate s A t c u).1 := by
   unfold txUpdate
   dsimp only
   repeat' split
@@ -383,7 +383,7 @@ theorem clk_step (s : State) (op : Op) (hnt : ∀ d, op ≠ .tick d) : Clk s (st
     all_goals first
       | exact Clk.refl s
       | exact (clk_begin s).trans ((clk_txDelete _ _ _ _).trans (clk_finishAuto _ _))
-  | createTable n => exact ⟨rfl, rfl, Nat.le_refl _⟩
+  | createTable n nl => exact ⟨rfl, rfl, Nat.le_refl _⟩
   | createIndex t c =>
     simp only [step]; unfold createIndex
     repeat' split
